@@ -150,7 +150,7 @@ impl Scenario for EcdsaNet {
                     if slots == 0 {
                         continue;
                     }
-                    let pairing = *rng.pick(&["right", "right", "right", "other_msg", "other_hash", "other_key"]);
+                    let pairing = *rng.pick(&["right", "right", "right", "other_msg", "other_hash", "other_key", "neg_key"]);
                     events.push(json!({"op": "deliver", "slot": rng.below(slots), "pairing": pairing, "verifier": *rng.pick(&["verify_digest", "verify_hashbuf", "sig_verify_message", "pk_verify_message", "is_valid_message"]),
                         "other_key": gen_key(rng), "flip": rng.below(1 << 16), "other_encoding": rng.chance(1, 3)}));
                 }
@@ -405,6 +405,18 @@ impl Scenario for EcdsaNet {
                             ctx.fault("mispair:hash");
                             ctx.probe("mispaired_hash");
                         }
+                        "neg_key" => {
+                            // the negated key n-d: same x coordinate, other y parity
+                            vkey = match rf::scalar_exact(&sl.key) {
+                                Some(d) => rf::scalar_bytes(&(-d)),
+                                None => {
+                                    ctx.skip();
+                                    continue;
+                                }
+                            };
+                            ctx.fault("mispair:key");
+                            ctx.probe("mispaired_negated_key");
+                        }
                         "other_key" => {
                             vkey = jhex(ev, "other_key");
                             if !rf::is_valid_secret(&vkey) || vkey == sl.key || rf::pubkey_of(&vkey, true) == rf::pubkey_of(&sl.key, true) {
@@ -419,7 +431,7 @@ impl Scenario for EcdsaNet {
                     }
                     // algebraic degenerate case, not a defect: for a message scalar of 0 a signature by d is also a
                     // valid signature by n-d (u1 = 0, and -Q yields the same x); the statement cannot mean this pair
-                    if pairing == "other_key" {
+                    if pairing == "other_key" || pairing == "neg_key" {
                         let z = rf::scalar_reduced(&match &sl.raw {
                             Some(d) => d.clone(),
                             None => digest_of(&hash, &msg),
